@@ -8,6 +8,7 @@ pub mod c17;
 pub mod c12;
 pub mod c05;
 pub mod c03grid;
+pub mod forkgrid;
 
 use crate::histex::BResult;
 use crate::props::Tier;
@@ -29,6 +30,7 @@ pub fn run(prop: &str, tier: Tier) -> Option<BResult> {
 pub fn grid_for_a(prop: &str, tier: Tier) -> Option<BResult> {
     match prop {
         "C03" => Some(c03grid::run(tier)),
+        "C09" | "C10" | "C11" => Some(forkgrid::run(prop, tier)),
         _ => None,
     }
 }
